@@ -77,6 +77,11 @@ def bounded_generated(tier, seed):
     return pb.bounded_generated(PID, tier, seed)
 
 
+def bounded_corners(tier, seed):
+    from bounded import parser_bounded as pb
+    return pb.bounded_rfc_corners(PID, tier, seed)
+
+
 def plan(tier):
     pl = Plan()
     pl.level = "other"
@@ -96,7 +101,7 @@ def plan(tier):
 
     pl.label_filter = lf
     pl.static = [static_T, lambda: lexfacts.obligations_L(PID), lambda: lexfacts.obligations_L_exact(PID), lambda: lexfacts.obligations_structure(PID)]
-    pl.bounded = [bounded_tokens, bounded_generated]
+    pl.bounded = [bounded_tokens, bounded_generated, bounded_corners]
     pl.functions = common.ARG_FUNCTIONS + [("sievelib.commands", "get_command_instance")] + common.PUSHDOWN_FUNCTIONS + [("sievelib.parser", "Parser.parse")]
     pl.trusted = [common.TRUSTED_LOWER, common.TRUSTED_RE, "frozen RFC command table (contracts/tables_frozen.py) and the RFC 5228 8.1 "
                   "token regexes in props/lexfacts.py, both hand-written from the RFCs",
